@@ -186,7 +186,11 @@ func (l *live) hook(conn any, point string, args []any) {
 		}
 	case "W.sel.reissue":
 		if ok, _ := args[0].(bool); ok {
-			l.rec.log(c, "W", "w_reissue")
+			var body B
+			if m, _ := args[1].(*service.Message); m != nil && m.JTMessage != nil {
+				body = append(B{}, m.JTMessage.Body...)
+			}
+			l.rec.log(c, "W", "w_reissue", "body", body)
 		}
 	case "W.stop":
 		l.rec.log(c, "W", "w_stop")
